@@ -14,7 +14,7 @@ let show_pinfo (i : finfo) =
 
 let show_sres (r : pres) : string = match r with
   | SOk -> "ok"
-  | SErr e -> Printf.sprintf "E L%d" (int_of_n e)
+  | SErr e -> if int_of_n e = 9998 then "E Gtoomany" else Printf.sprintf "E L%d" (int_of_n e)
   | SInfo i -> "I " ^ show_pinfo i
   | SStr s -> "S " ^ tok_of_str s
   | SBytes b -> Printf.sprintf "B %d %s nil" (List.length b) (tok_of_str b)
